@@ -294,6 +294,8 @@ func (e *Engine) vpCall(st *State, name string, args []Value, site ssa.Instructi
 			c = KInt64(0)
 		}
 		ret(st, c)
+	case "Gunzip":
+		ret(st, args[0])
 	case "Observe":
 		ret(st, nil)
 	default:
